@@ -60,6 +60,7 @@ type Contract struct {
 	NativeStr    bool
 	Props        []string // property ids this contract serves
 	Asserts      []*Clause
+	AtReturn     []*Clause // assertions checked at every return, local variables visible
 	Counts       map[string]string // callee short name -> ghost counter of calls
 	Observe      map[string]string // callee short name -> ghost variable holding its last result
 	Before       map[string][]*Clause // callee short name -> assertions checked before each call
@@ -131,7 +132,7 @@ type RecFunc struct {
 	Body   string // SMT body (raw)
 }
 
-var clauseKW = regexp.MustCompile(`^(requires|ensures|modifies|held|acquires|loop|option|props|assert|before|observe|count)\b`)
+var clauseKW = regexp.MustCompile(`^(requires|ensures|modifies|held|acquires|loop|option|props|assert|before|observe|count|atreturn)\b`)
 var labelRe = regexp.MustCompile(`^([A-Za-z][A-Za-z0-9_\-]*):\s+(.*)$`)
 
 func parseClause(src string, line int) (*Clause, error) {
@@ -337,6 +338,12 @@ func parseContractFile(path, pkgPath string) (*PkgSpec, error) {
 				cur.Before = map[string][]*Clause{}
 			}
 			cur.Before[rest[:k]] = append(cur.Before[rest[:k]], c)
+		case strings.HasPrefix(t, "atreturn "):
+			c, err := parseClause(strings.TrimSpace(strings.TrimPrefix(t, "atreturn ")), it.line)
+			if err != nil {
+				return nil, fail(err)
+			}
+			cur.AtReturn = append(cur.AtReturn, c)
 		case strings.HasPrefix(t, "count "):
 			m := regexp.MustCompile(`^count\s+([A-Za-z_][A-Za-z0-9_]*)\s*:=\s*(\S+)$`).FindStringSubmatch(t)
 			if m == nil {
